@@ -117,6 +117,7 @@ type ContractSet struct {
 	LemmaOrd  []string
 	Ghosts    map[string]string // ghost global name -> type text
 	GhostFlds map[string]string // "T.f" -> type text (ghost fields)
+	GhostDefault map[string]string // "T.f" -> spec expression: value for a zero-initialised object
 	Guarded   []Guarded
 	Monitors  []*Monitor
 	TypeInvs  map[string][]*Clause
@@ -131,7 +132,7 @@ type ContractSet struct {
 
 func NewContractSet() *ContractSet {
 	return &ContractSet{Funcs: map[string]*Contract{}, Pures: map[string]*PureFn{}, Lemmas: map[string]*Lemma{},
-		Ghosts: map[string]string{}, GhostFlds: map[string]string{}, TypeInvs: map[string][]*Clause{}, PureVars: map[string]bool{}, OpaqueDiv: map[string]bool{}, Tables: map[string]*TableSpec{}}
+		Ghosts: map[string]string{}, GhostFlds: map[string]string{}, GhostDefault: map[string]string{}, TypeInvs: map[string][]*Clause{}, PureVars: map[string]bool{}, OpaqueDiv: map[string]bool{}, Tables: map[string]*TableSpec{}}
 }
 
 var clauseKW = map[string]bool{"arith": true, "ghost": true, "pure": true, "opaque": true, "lemma": true, "func": true,
@@ -312,7 +313,12 @@ func (cs *ContractSet) Load(path string, commentOnly bool) error {
 			if len(f) < 2 {
 				return fail(l, "ghostfield T.f type")
 			}
-			cs.GhostFlds[f[0]] = strings.Join(f[1:], " ")
+			ty := strings.Join(f[1:], " ")
+			if k := strings.Index(ty, "="); k >= 0 {
+				cs.GhostDefault[f[0]] = strings.TrimSpace(ty[k+1:])
+				ty = strings.TrimSpace(ty[:k])
+			}
+			cs.GhostFlds[f[0]] = ty
 		case "purevar":
 			for _, v := range strings.Fields(strings.ReplaceAll(rest, ",", " ")) {
 				cs.PureVars[v] = true
